@@ -6080,12 +6080,38 @@ class CodegenCtx:
         elif transition.target in self.dfa.states:
             if transition.target in self.dfa.accepting_states:
                 transition_body.add(f"return {self.program_name.upper()}_DONE;")
-            elif self._state_only_passes_through(transition.target):
+            elif self._state_only_passes_through(transition.target) and not self._end_may_be_consumed_again_from(transition.target):
                 # conditions and actions that follow the end of input have yet to run
                 transition_body.add("goto repeatswitch;")
             else:
                 transition_body.add(f"return {self.program_name.upper()}_FAIL;")
         return transition_body.value()
+
+    def _end_may_be_consumed_again_from(self, state: DFState):
+        """
+        Following only moves which do not consume, can end-of-input reach a transition that consumes it (a second time)?
+        """
+        visited = set()
+        pending = [state]
+        while pending:
+            current = pending.pop()
+            if current is None or current in visited or current not in self.dfa.states:
+                continue
+            visited.add(current)
+            if isinstance(current, DFConditionPoint):
+                taken = list(current.transitions)
+            else:
+                end_transition = current[DFTransition.End]
+                if end_transition is None:
+                    continue
+                if not end_transition.is_fallthrough:
+                    return True
+                taken = [end_transition]
+            for trans in taken:
+                pending.append(trans.target)
+                for action in trans.actions:
+                    pending.extend(action.get_target_override_targets())
+        return False
 
     def _state_only_passes_through(self, state: DFState):
         """
